@@ -39,6 +39,19 @@ func WithCallback(cb string, pathItem *PathItem) NewCallbackOption {
 func (callback *Callback) Validate(ctx context.Context, opts ...ValidationOption) error {
 	ctx = WithValidationOptions(ctx, opts...)
 
+	// An operation of a callback may refer to that callback again:
+	// a callback met while it is being validated is not entered a second time.
+	inProgress, _ := ctx.Value(callbacksInValidationKey{}).(map[*Callback]struct{})
+	if _, ok := inProgress[callback]; ok {
+		return nil
+	}
+	entered := make(map[*Callback]struct{}, len(inProgress)+1)
+	for k := range inProgress {
+		entered[k] = struct{}{}
+	}
+	entered[callback] = struct{}{}
+	ctx = context.WithValue(ctx, callbacksInValidationKey{}, entered)
+
 	keys := make([]string, 0, callback.Len())
 	for key := range callback.Map() {
 		keys = append(keys, key)
@@ -53,6 +66,8 @@ func (callback *Callback) Validate(ctx context.Context, opts ...ValidationOption
 
 	return validateExtensions(ctx, callback.Extensions)
 }
+
+type callbacksInValidationKey struct{}
 
 // UnmarshalJSON sets Callbacks to a copy of data.
 func (callbacks *Callbacks) UnmarshalJSON(data []byte) (err error) {
